@@ -42,8 +42,8 @@ UNWRAP = "protocol::varint::from"      # impl From<VarInt> for u32: checked belo
 
 def is_const(e, name):
     e = ir.peel(e)
-    while e[0] == 'call' and (ir.is_transparent(e[1]) or e[1] == UNWRAP) and e[2]:
-        e = ir.peel(e[2][0])
+    while (e[0] == 'call' and (ir.is_transparent(e[1]) or e[1] == UNWRAP) and e[2]) or (e[0] == 'field' and str(e[2]) == '0'):
+        e = ir.peel(e[2][0]) if e[0] == 'call' else ir.peel(e[1])     # `.0` of the newtype is the wrapped integer
     return e[0] == 'constdef' and e[1] == name
 
 
@@ -117,7 +117,26 @@ def run(rep, facts):
         if r.end != 'return' or r.ret is None:
             continue
         ret = ir.peel(r.ret)
-        if ret[0] == 'call' and ret[1].startswith("<protocol::varint::VarInt as std::convert::TryFrom"):
+        if ret[0] == 'call' and ret[1] == "std::result::Result::and_then" and len(ret[2]) == 2:
+            # u32::try_from(v).map_err(|_| InvalidVarInt).and_then(VarInt::try_from): both outcomes in one expression
+            conv = [x for x in ir.walk(ret[2][0]) if x[0] == 'call' and ('try_from' in x[1] or 'TryFrom' in x[1])]
+            fn_ = ir.peel(ret[2][1])
+            me = [x for x in ir.walk(ret[2][0]) if x[0] == 'call' and x[1] == "std::result::Result::map_err"]
+            cl_ok = False
+            for m_ in me:
+                for y in ir.walk(m_[2][1]):
+                    if y[0] == 'agg' and y[1] == 'closure':
+                        cb = facts.by_path.get(y[2])
+                        if cb is not None:
+                            cg = ieg.IEG(facts, cb, inline_filter=lambda x: False)
+                            rs = [q for q in paths.rows(cg) if q.end == 'return' and q.ret is not None]
+                            cl_ok = bool(rs) and all(variant_of(q.ret) == 'InvalidVarInt' for q in rs)
+            # (the function item is TryFrom::try_from at u32 -> VarInt: the types leave only the guarded conversion)
+            if conv and fn_[0] == 'fn' and (fn_[1].startswith("<protocol::varint::VarInt as std::convert::TryFrom") or fn_[1].endswith("TryFrom::try_from")) and cl_ok:
+                seen.update(('delegate', 'err'))
+            else:
+                ok = False
+        elif ret[0] == 'call' and ret[1].startswith("<protocol::varint::VarInt as std::convert::TryFrom"):
             a = ir.peel(ret[2][0])
             conv = [x for x in ir.walk(a) if x[0] == 'call' and 'try_from' in x[1] or x[0] == 'call' and 'TryFrom' in x[1]]
             if not conv:
